@@ -21,17 +21,17 @@
 (*  - compare: the model's `last` vs the summary of `shown`; a mismatch marks *)
 (*             the execution as diverged (conformance warning).              *)
 (***************************************************************************)
-EXTENDS Carbons, Integers, Json, CSV, IOUtils
+EXTENDS Carbons, Integers, Json, CSV, IOUtils   \* FiniteSets comes with Carbons
 
 TraceLog == ndJsonDeserialize(IOEnv.QXV_TRACE)
 
-VARIABLES l, cid, viol, ndiv, divs, dflag, ncases, nunwrapped, nouter
+VARIABLES l, cid, viol, nviol, ndiv, divs, dflag, ncases, nunwrapped, nouter
 
-tvars == <<vars, l, cid, viol, ndiv, divs, dflag, ncases, nunwrapped, nouter>>
+tvars == <<vars, l, cid, viol, nviol, ndiv, divs, dflag, ncases, nunwrapped, nouter>>
 
 TInit ==
     /\ Init /\ gen = "v2" /\ jidcfg = "plain"
-    /\ l = 1 /\ cid = "" /\ viol = {} /\ ndiv = 0 /\ divs = <<>> /\ dflag = FALSE /\ ncases = 0
+    /\ l = 1 /\ cid = "" /\ viol = {} /\ nviol = 0 /\ ndiv = 0 /\ divs = <<>> /\ dflag = FALSE /\ ncases = 0
     /\ nunwrapped = 0 /\ nouter = 0
 
 SeqRange(s) == {s[k] : k \in 1..Len(s)}
@@ -82,12 +82,15 @@ ModelAct(ev) ==
 ResetStep(ev) ==
     /\ Reinit(ev.gen, ev.jidcfg)
     /\ cid' = ev.case /\ dflag' = FALSE /\ ncases' = ncases + 1
-    /\ UNCHANGED <<viol, ndiv, divs, nunwrapped, nouter>>
+    /\ UNCHANGED <<viol, nviol, ndiv, divs, nunwrapped, nouter>>
 
 OpStep(ev) ==
     /\ \/ ModelAct(ev)
        \/ (~ENABLED ModelAct(ev)) /\ UNCHANGED vars
-    /\ viol' = viol \cup {[case |-> cid, line |-> l, prop |-> p, c |-> ev.c, w |-> ev.w, i |-> ev.i] : p \in Failed(ev)}
+    \* one record per (property, generation, sender class, wrapper): the first line that shows it
+    /\ viol' = viol \cup {[case |-> cid, line |-> l, prop |-> p, gen |-> gen, c |-> ev.c, w |-> ev.w, i |-> ev.i] :
+                              p \in {q \in Failed(ev) : ~\E v \in viol : v.prop = q /\ v.gen = gen /\ v.c = ev.c /\ v.w = ev.w}}
+    /\ nviol' = nviol + Cardinality(Failed(ev))
     /\ nunwrapped' = nunwrapped + (IF ObsWhat(ev) = "inner" THEN 1 ELSE 0)
     /\ nouter' = nouter + (IF ObsWhat(ev) = "outer" THEN 1 ELSE 0)
     /\ LET d == Proj' # Obs(ev) IN
@@ -103,11 +106,11 @@ TNext ==
     /\ LET ev == TraceLog[l] IN
         IF ev.e = "Reset" THEN ResetStep(ev)
         ELSE IF ev.e = "Recv" THEN OpStep(ev)
-        ELSE UNCHANGED <<vars, cid, viol, ndiv, divs, dflag, ncases, nunwrapped, nouter>>   \* e.g. a "Crash" marker
+        ELSE UNCHANGED <<vars, cid, viol, nviol, ndiv, divs, dflag, ncases, nunwrapped, nouter>>   \* e.g. a "Crash" marker
 
 TSpec == TInit /\ [][TNext]_tvars
 
-Summary == [cases |-> ncases, lines |-> l - 1, viol |-> viol, ndiv |-> ndiv, divs |-> divs,
+Summary == [cases |-> ncases, lines |-> l - 1, viol |-> viol, nviol |-> nviol, ndiv |-> ndiv, divs |-> divs,
             unwrapped |-> nunwrapped, outer |-> nouter]
 Done == l <= Len(TraceLog) \/ CSVWrite("%1$s", <<ToJson(Summary)>>, IOEnv.QXV_SUMMARY)
 =============================================================================
